@@ -133,7 +133,7 @@ Allowed(c, nexecs) == PolBmax(c.pol) + nexecs
 \* ---- monitor state
 MonX0 == [natt |-> 0, prevh |-> 0, ord |-> 0, out |-> "none", lerr |-> 0, lerrx |-> "none",
           alw |-> "none", dec |-> "none", cand |-> -1, skipped |-> FALSE,
-          comp |-> FALSE, ratt |-> 0, reord |-> 0, rx |-> "none", aft |-> FALSE]
+          comp |-> FALSE, ratt |-> 0, reord |-> 0, rx |-> "none", aft |-> FALSE, aftc |-> FALSE, hs |-> {}]
 MonInit == [sent |-> 0, ends |-> 0, execs |-> {}, cancelled |-> FALSE, ret |-> FALSE, q |-> {}, viol |-> {},
             x |-> [e \in E |-> MonX0]]
 
@@ -158,6 +158,17 @@ StartKeys(m, r, e, h, x, c) ==
   \* has another event after the return before it (each event of an execution causally
   \* precedes its next request).
   (IF x = "sent" /\ m.ret /\ (~c.wire \/ r.aft) THEN {"attempt-after-result"} ELSE {})
+  \* "context cancellation stops further attempts": no request after the caller's context ended
+  \* (cancel event; same in-package / on-the-wire reasoning as above).  This also covers a
+  \* cancellation that lands BETWEEN two attempts (while the retry policy is consulted or sleeps).
+  \cup (IF x = "sent" /\ m.cancelled /\ (~c.wire \/ r.aftc) THEN {"attempt-after-cancel"} ELSE {})
+  \* one plan of the host selection policy is shared by all executions of a statement ("a retry
+  \* goes to ... the next offered host"; the speculative execution "on a different node"): while
+  \* an offered usable host is still untried, no execution attempts a host that ANOTHER execution
+  \* of the statement has already attempted
+  \cup (IF (\E f \in m.execs \ {e} : h \in m.x[f].hs)
+         /\ (\E u \in 1 .. Len(c.hosts) : c.hosts[u] = "ok" /\ \A f \in m.execs \cup {e} : u \notin m.x[f].hs /\ u # h)
+        THEN {"host-reused-by-parallel-execution"} ELSE {})
   \* "a query not marked idempotent is ... as the documentation states, never retried"
   \cup (IF retry /\ ~c.idem THEN {"non-idempotent-retried"} ELSE {})
   \* "a query is sent once unless a retry policy ... says otherwise"
@@ -199,7 +210,8 @@ MonStep(m, evt, c) ==
       r == IF e \in E THEN m.x[e] ELSE MonX0
       SetX(m1, r1) == [m1 EXCEPT !.x[e] = r1]
       AddExec(m1, keys) == [m1 EXCEPT !.execs = @ \cup {e}, !.viol = @ \cup keys \cup NewExecKeys(m, e, c),
-                                      !.x[e].aft = @ \/ (c.wire /\ m.ret)] IN
+                                      !.x[e].aft = @ \/ (c.wire /\ m.ret),
+                                      !.x[e].aftc = @ \/ (c.wire /\ m.cancelled)] IN
   CASE evt.ev = "pick" ->
          \* passing over a usable offered host is remembered; an exhausted iterator ends the
          \* execution with the last attempt's error (or "no connections" if there was none)
@@ -211,7 +223,7 @@ MonStep(m, evt, c) ==
          AddExec(SetX(m, r1), {})
     [] evt.ev = "start" ->
          LET r1 == [r EXCEPT !.natt = r.natt + 1, !.prevh = evt.h, !.ord = evt.n, !.alw = "none", !.dec = "none",
-                             !.cand = -1, !.skipped = FALSE, !.comp = FALSE]
+                             !.cand = -1, !.skipped = FALSE, !.comp = FALSE, !.hs = r.hs \cup {evt.h}]
              m1 == [SetX(m, r1) EXCEPT !.sent = m.sent + (IF evt.x = "sent" THEN 1 ELSE 0)] IN
          AddExec(m1, StartKeys(m, r, e, evt.h, evt.x, c))
     [] evt.ev = "end" ->
